@@ -569,3 +569,4 @@ def run(eng: Engine, ck: Check):
     from . import defs as _d19
     _d19.string_decoding_tolerant(eng, ck, 'R-C19-EXHAUSTIVE', 'an announcement naming such a user must still reach its handler, or the view misses it')
     _d19.enum_members_distinct(eng, ck, 'R-C19-EFFECTS', [('BlockingFlag', 'user/model.py'), ('UserStatus', 'user/model.py')], 'a message is reported unless its sender is blocked for THAT kind of message')
+    _d19.on_message_registers(eng, ck, 'R-C19-EXHAUSTIVE', 'every notification kind has a handler only if the handler is in the message map')
